@@ -59,5 +59,8 @@ def find_all_dependencies(
                     continue
                 rec_deps = find_all_dependencies(cls, member, {*rec_guard, member})
                 dependencies.update(rec_deps)
+        if rec_guard:
+            # result possibly truncated by the recursion guard: valid for this call only
+            return dependencies
         cache[cls, func] = dependencies
     return cache[cls, func]
